@@ -66,3 +66,12 @@ package config
 //@   calls-only setupLogDirectory, setupPlainMode, setupAdditionalArgs, dynamic call
 //@ func (*initializer).transformConfig
 //@   calls-only (*initializer).processEnvVars, (*initializer).setupConfig
+// The client-side transforms decide serverless mode from the server argument
+// and never rewrite it: discovery (C18) gets ServersStr, Discovery and the
+// files / query exactly as the user typed them.
+//@ func transformClient
+//@   requires [ptrs] in != nil && in.Common != nil && args != nil
+//@   assigns args.Serverless, in.Common.LogLevel
+//@ func transformHealthCheck
+//@   requires [ptrs] in != nil && in.Common != nil && args != nil
+//@   assigns args.Serverless, args.TrustAllHosts, in.Common.LogLevel
